@@ -122,13 +122,8 @@ func verifFree(m *Message) {
 		l.released[m] = true
 		verifFill(m.bbuf)
 		verifFill(m.hbuf)
-		// whatever Body/Header now point at (possibly a grown slice) is dead too
-		if cap(m.Body) > 0 {
-			verifFill(m.Body[:0])
-		}
-		if cap(m.Header) > 0 {
-			verifFill(m.Header[:0])
-		}
+		// (only the message's own buffers: Body and Header are public fields
+		// and may point at a slice the application put there and keeps)
 	}
 }
 
